@@ -177,6 +177,7 @@ def convB (σ : Space) (rid : String → Option Id) : Nat → Schema → Id → 
       rid k == some t ||
       (match σ.get t with
        | some ⟨.box t', _, _⟩ => convB σ rid fc s t'      -- `Box` inserted by cycle breaking
+       | some ⟨.newtype _ inner .none _, _, _⟩ => convB σ rid fc s inner     -- a definition that is an alias
        | _ => false)
     | _ =>
       match σ.get t with
